@@ -251,7 +251,7 @@ func keyClass(p *an.Prog, o an.Origin, follow []ssa.Instruction) string {
 			return "field:" + d
 		}
 		if g, ok := x.X.(*ssa.Global); ok {
-			return "global:" + g.Name()
+			return "global:" + an.GName(g)
 		}
 	case *ssa.Global:
 		return "global:" + x.Name()
